@@ -58,6 +58,10 @@ type c11Target struct {
 	reject   map[string]bool // sender (as the pipeline sees it): refuse Start
 	bodyFail map[string]bool
 	open     int
+	// abortErr: Abort closes the delivery and then reports an error (a target whose clean-up failed).
+	// The permit accounting of Limits.tla is independent of what the target answers to Abort, so this is
+	// a harness-only data dimension: every second behaviour runs with it.
+	abortErr bool
 }
 
 var (
@@ -148,7 +152,13 @@ func (d *c11Delivery) done() error {
 	d.t.mu.Unlock()
 	return nil
 }
-func (d *c11Delivery) Abort(context.Context) error  { return d.done() }
+func (d *c11Delivery) Abort(context.Context) error {
+	d.done()
+	if d.t.abortErr {
+		return errors.New("verif: abort failed")
+	}
+	return nil
+}
 func (d *c11Delivery) Commit(context.Context) error { return d.done() }
 
 // ---- behaviours ---------------------------------------------------------------------
@@ -397,7 +407,7 @@ func runEndpointBehaviour(t *testing.T, b EBehaviour, w *bufio.Writer) {
 		tr := vtrace.New(w, b.ID)
 		tr.Emit("Cfg", vtrace.Ev{"all": b.Cfg.All, "ip": b.Cfg.IP, "source": b.Cfg.Source,
 			"dest": b.Cfg.Dest, "mb": b.Cfg.MB, "dual": b.Dual, "level": "endpoint", "defer": b.Defer})
-		tgt := &c11Target{reject: map[string]bool{}, bodyFail: map[string]bool{}}
+		tgt := &c11Target{reject: map[string]bool{}, bodyFail: map[string]bool{}, abortErr: b.ID%2 == 1}
 		setC11Target(tgt)
 		mod, err := smtpendp.New("smtp", nil)
 		if err != nil {
